@@ -282,7 +282,7 @@ Section C02_system.
     forall s1 s2, In s1 (y_nodes y) -> In s2 (y_nodes y) ->
     forall b1 b2, In b1 (s_chain s1) -> In b2 (s_chain s2) -> b_round b1 = b_round b2 -> b1 = b2.
   Proof.
-    exact (run_agree C idx_of vpart recov vrec own_of vrec_unchained recov_sound Hp Hg thr_of F_of F_small gen gen_round vrec_unique).
+    exact (run_agree C idx_of vpart recov vrec own_of vrec_unchained recov_sound Hp Hg thr_of F_of gen gen_round vrec_unique).
   Qed.
 End C02_system.
 Print Assumptions C02_system_agree.
